@@ -279,26 +279,27 @@ theorem foldl_unlock_replay (env : Env) (e : Int) (b0 : Hash → Int) (keys : Li
   | nil => exact h
   | cons k ks ih => exact ih _ (unlockOne_replay env e b0 cur k h)
 
-/-- `Lock` first writes an empty lock record; on a fresh address this changes no balance -/
-theorem balOf_set_fresh (m : Accts) (t f : Hash) (till : Int) (h : t ∉ m.map (·.1)) :
+/-- `Lock` first overwrites the target with an empty lock record; when the target held no funds
+(fresh address or a record with balance 0) this changes no balance -/
+theorem balOf_set_zero (m : Accts) (t f : Hash) (till : Int) (h : (getAcc m t).bal = 0) :
     balOf (setAcc m t ⟨0, till, f⟩) = balOf m := by
   funext k
   unfold balOf
   by_cases hk : t = k
   · subst hk
-    rw [getAcc_setAcc_self, getAcc_absent _ _ h]; rfl
+    rw [getAcc_setAcc_self, h]
   · rw [getAcc_setAcc_other _ _ _ _ hk]
 
-/-- the only thing replay needs from the property's quantifier: lock targets are fresh -/
-def LockFresh (s : State) : Op → Prop
-  | .lock _ _ t _ _ => t ∉ s.accts.map (·.1)
+/-- the only thing replay needs from the property's quantifier: a lock target holds no funds -/
+def LockZero (s : State) : Op → Prop
+  | .lock _ _ t _ _ => (getAcc s.accts t).bal = 0
   | _ => True
 
-theorem lockFresh_of_wf (s : State) (op : Op) (h : WFOp s op) : LockFresh s op := by
-  cases op <;> simp only [LockFresh] <;> first | trivial | exact h.2.2
+theorem lockZero_of_wf (s : State) (op : Op) (h : WFOp s op) : LockZero s op := by
+  cases op <;> simp only [LockZero] <;> first | trivial | exact h.2.2
 
 theorem replay_step (s s' : State) (env : Env) (op : Op) (r : Option Bool) (ev : List Event)
-    (hw : LockFresh s op) (h : step s env op = some (s', r, ev)) :
+    (hw : LockZero s op) (h : step s env op = some (s', r, ev)) :
     balOf s'.accts = applyEvents (balOf s.accts) ev := by
   cases op with
   | transfer f t amt =>
@@ -316,7 +317,7 @@ theorem replay_step (s s' : State) (env : Env) (op : Op) (r : Option Bool) (ev :
     exact xfer_replay _ _ _ _ _ _ _ _ _ hx
   | lock d f t amt till =>
     obtain ⟨_, _, _, m, evx, hx, rfl, _, rfl⟩ := step_lock_inv _ _ _ _ _ _ _ _ _ _ h
-    rw [applyEvents_append, applyEvents_lock, ← balOf_set_fresh s.accts t f till hw]
+    rw [applyEvents_append, applyEvents_lock, ← balOf_set_zero s.accts t f till hw]
     exact xfer_replay _ _ _ _ _ _ _ _ _ hx
   | newEpoch e =>
     obtain ⟨_, rfl, _, rfl⟩ := step_newEpoch_inv _ _ _ _ _ _ h
@@ -335,7 +336,7 @@ def histEvents (s : State) : List (Env × Op) → List Event
   | [] => []
   | (env, op) :: rest => invokeEvents s env op ++ histEvents (invoke s env op).1 rest
 
-theorem replay_invoke (s : State) (env : Env) (op : Op) (hw : LockFresh s op) :
+theorem replay_invoke (s : State) (env : Env) (op : Op) (hw : LockZero s op) :
     balOf (invoke s env op).1.accts = applyEvents (balOf s.accts) (invokeEvents s env op) := by
   cases hs : step s env op with
   | none =>
@@ -347,20 +348,20 @@ theorem replay_invoke (s : State) (env : Env) (op : Op) (hw : LockFresh s op) :
     rw [invoke_halt _ _ _ _ _ _ hs]
     exact replay_step _ _ _ _ _ _ hw hs
 
-/-- freshness of lock targets along a history -/
-def LockFreshHist (s : State) : List (Env × Op) → Prop
+/-- lock targets hold no funds, along a history -/
+def LockZeroHist (s : State) : List (Env × Op) → Prop
   | [] => True
-  | (env, op) :: rest => LockFresh s op ∧ LockFreshHist (invoke s env op).1 rest
+  | (env, op) :: rest => LockZero s op ∧ LockZeroHist (invoke s env op).1 rest
 
-theorem lockFreshHist_of_wf (hist : List (Env × Op)) (s : State) (h : WFHist s hist) :
-    LockFreshHist s hist := by
+theorem lockZeroHist_of_wf (hist : List (Env × Op)) (s : State) (h : WFHist s hist) :
+    LockZeroHist s hist := by
   induction hist generalizing s with
   | nil => trivial
   | cons x rest ih =>
     obtain ⟨env, op⟩ := x
-    exact ⟨lockFresh_of_wf s op h.1, ih _ h.2⟩
+    exact ⟨lockZero_of_wf s op h.1, ih _ h.2⟩
 
-theorem replay_hist (hist : List (Env × Op)) (s : State) (hw : LockFreshHist s hist) :
+theorem replay_hist (hist : List (Env × Op)) (s : State) (hw : LockZeroHist s hist) :
     balOf (run s hist).accts = applyEvents (balOf s.accts) (histEvents s hist) := by
   induction hist generalizing s with
   | nil => rfl
